@@ -2,8 +2,8 @@
    the write sites extracted from the normalization functions of the current source.  The oracle of the harness
    (deep / repr snapshots of document, schema, allow_unknown rule sets and registries around every API call)
    checks the same on the real objects, including aliasing the site abstraction does not see. *)
-From Coq Require Import List String Bool.
-From Cerb Require Import Values Facts Ownership OwnershipProofs Current.
+From Coq Require Import List ZArith String Bool.
+From Cerb Require Import Values PyOps Errors Facts Validate Normalize Ownership OwnershipProofs Current.
 Import ListNotations.
 
 (* the write sites of the current source: all at depth 0, or below a member re-bound to a copy first;
@@ -21,6 +21,42 @@ Print Assumptions C05_no_foreign_write.
 Theorem C05_refuted_without_copy :
   foreign_writes [(("normalize_mapping_per_keysrules", "mapping", 1%nat, false), Caller)] <> [].
 Proof. exact unguarded_nested_write_is_foreign. Qed.
+
+(* "with normalize=False the processed document equals the input": on the API model, for every schema, document,
+   configuration and fuel, validate(document, normalize=False) leaves validator.document equal to the document given,
+   and validated(document, normalize=False) returns that document or None -- never anything else *)
+Theorem C05_unnormalized_document_is_input :
+  forall fuel cfg schema doc update o,
+    api_validate current fuel cfg schema doc update false = Ok o -> out_doc o = doc.
+Proof.
+  intros fuel cfg schema doc update o H. unfold api_validate in H.
+  destruct (validate_ctx current fuel _) as [errs|ex site|] eqn:E; cbn [bind] in H; try discriminate.
+  inversion H; subst o; reflexivity.
+Qed.
+Print Assumptions C05_unnormalized_document_is_input.
+
+Theorem C05_unnormalized_validated_returns_input :
+  forall fuel cfg schema doc update always d,
+    api_validated current fuel cfg schema doc update false always = Ok (Some d) -> d = doc.
+Proof.
+  intros fuel cfg schema doc update always d H. unfold api_validated in H.
+  destruct (api_validate current fuel cfg schema doc update false) as [o|ex site|] eqn:E; cbn [bind] in H; try discriminate.
+  apply C05_unnormalized_document_is_input in E.
+  destruct (out_errs o); [|destruct always]; inversion H; subst; reflexivity.
+Qed.
+Print Assumptions C05_unnormalized_validated_returns_input.
+
+(* not vacuous, and not true of normalize=True: a default changes the processed document only when normalizing *)
+Example C05_example_unnormalized :
+  let cfg := {| c_allow_unknown := VBool false; c_require_all := false; c_ignore_none := false; c_purge_unknown := false;
+                c_purge_readonly := false; c_is_child := false; c_is_normalized := false; c_root_doc := VNone;
+                c_rules_reg := []; c_schema_reg := [] |} in
+  let schema := [(KStr "a", VDict [(KStr "default", VInt 1%Z)])] in
+  match api_validate current 6 cfg schema [] false false, api_validate current 6 cfg schema [] false true with
+  | Ok o, Ok o' => out_doc o = [] /\ out_doc o' = [(KStr "a", VInt 1%Z)]
+  | _, _ => False
+  end.
+Proof. vm_compute. split; reflexivity. Qed.
 
 Example C05_example : List.length (f_write_sites current) = 17%nat /\
   existsb (fun s => Nat.eqb (s_depth s) 1) (f_write_sites current) = true.
